@@ -3,10 +3,15 @@ package hcore
 import (
 	"testing"
 
-	_ "github.com/Comcast/sheens/interpreters/ecmascript"
+	"github.com/Comcast/sheens/core"
+	"github.com/Comcast/sheens/interpreters/ecmascript"
 	"github.com/Comcast/sheens/verifrt/vh"
 )
 
 func TestMain(m *testing.M) {
+	// the extended environment (what interpreters.Standard() offers as "ecmascript-ext" and "goja")
+	ext := ecmascript.NewInterpreter()
+	ext.Extended = true
+	core.DefaultInterpreters["ecmascript-ext"] = ext
 	vh.Main(Checks)
 }
